@@ -32,7 +32,11 @@ Inductive c18case :=
 | CEncrypt (w0 reps : N) (m : msg) (err : option exn) (draws : list (site * N))
            (iv : obs) (rs : list orecip)
 | CGen (w0 reps native_min : N) (c : call) (err : option exn) (draws : list (site * N))
-       (emitted : obs).
+       (emitted : obs)
+(* JWKRegistry.generate_key ([count] = None) / KeySet.generate_key_set ([count] = Some k):
+   the origin of the material of every returned key, in the order of the set *)
+| CGenSet (w0 native_min : N) (g : genspec) (private : bool) (count : option N) (err : option exn)
+          (draws : list (site * N)) (emitted : list obs).
 
 Definition rel (w : world) (d : draw) : obs :=
   if w_ctr w <=? d_idx d then ODraw (d_idx d - w_ctr w) else OStale.
@@ -92,10 +96,22 @@ Definition gen_once (native_min : N) (c : call) (err : option exn) (draws : list
            | CallGenRSA b => gen_rsa native_min b w
            | CallGenEC crv => gen_ec crv w
            | CallGenOKP crv => gen_okp crv w
-           | CallEncrypt _ => fail EAssert w
+           | CallEncrypt _ | CallGenSet _ _ _ => fail EAssert w
            end in
   (err_ok (o_res r) err && shape_eqb (shape (o_draws r)) draws
    && match o_res r with Ok d => obs_eqb (rel w d) emitted | Err _ => true end, o_world r).
+
+Definition genset_once (nm : N) (g : genspec) (private : bool) (count : option N) (err : option exn)
+           (draws : list (site * N)) (emitted : list obs) (w : world) : bool :=
+  let r := match count with
+           | None => bindM (gen_one nm g private) (fun d => ret [d]) w
+           | Some k => gen_key_set nm g private (N.to_nat k) w
+           end in
+  err_ok (o_res r) err && shape_eqb (shape (o_draws r)) draws
+  && match o_res r with
+     | Ok ds => list_eqb obs_eqb (map (rel w) ds) emitted
+     | Err _ => true
+     end.
 
 Definition iterate (n : N) (f : world -> bool * world) (w0 : N) : bool :=
   fst (N.iter n (fun st => let '(b, w) := st in
@@ -106,6 +122,7 @@ Definition c18_check (c : c18case) : bool :=
   match c with
   | CEncrypt w0 reps m err draws iv rs => (0 <? reps) && iterate reps (enc_once m err draws iv rs) w0
   | CGen w0 reps nm c err draws em => (0 <? reps) && iterate reps (gen_once nm c err draws em) w0
+  | CGenSet w0 nm g p k err draws em => genset_once nm g p k err draws em {| w_ctr := w0 |}
   end.
 
 (* what the model predicts for the first repetition (printed for failing cases) *)
@@ -127,8 +144,17 @@ Definition c18_show (c : c18case) :=
                | CallGenRSA b => gen_rsa nm b w
                | CallGenEC crv => gen_ec crv w
                | CallGenOKP crv => gen_okp crv w
-               | CallEncrypt _ => fail EAssert w
+               | CallEncrypt _ | CallGenSet _ _ _ => fail EAssert w
                end in
       (match o_res r with Ok _ => None | Err e => Some e end, shape (o_draws r),
        (match o_res r with Ok d => rel w d | Err _ => ONone end, []))
+  | CGenSet w0 nm g p k _ _ _ =>
+      let w := {| w_ctr := w0 |} in
+      let r := match k with
+               | None => bindM (gen_one nm g p) (fun d => ret [d]) w
+               | Some k => gen_key_set nm g p (N.to_nat k) w
+               end in
+      (match o_res r with Ok _ => None | Err e => Some e end, shape (o_draws r),
+       (ONone, map (fun d => (rel w d, ONone, ONone, @None N, ONone))
+                   (match o_res r with Ok ds => ds | Err _ => [] end)))
   end.
